@@ -20,7 +20,8 @@
    [run_v0]                               the same run with the loader's mergeResult BEFORE the three repairs
        (work/c07_fix_*.patch; ModelPreFix.v): the `_refuted` theorems are historical, about that function. *)
 From Gv Require Import lib.Bytes lib.Json C02.Model C02.Spec C07.Model C07.ModelPreFix C07.Spec
-     C07.ProofsErrors C07.ProofsMono C07.ProofsJson C07.ProofsUnaff C07.ProofsSkip C07.ProofsExamples.
+     C07.ProofsErrors C07.ProofsMono C07.ProofsJson C07.ProofsUnaff C07.ProofsSkip C07.ProofsExamples
+     C07.ModelTaint C07.SpecTaint C07.ProofsSelect C07.ProofsTaint C07.ProofsTaintExamples.
 From Coq Require Import String.
 Open Scope N_scope.
 Open Scope string_scope.
@@ -232,3 +233,119 @@ Example c07_hypotheses_satisfiable :
   loud (p1_kind 2) FtTransport = true /\
   ls_data (p1_run (fault_at 2 FtTransport)) <> ls_data (p1_run no_faults).
 Proof. vm_compute. repeat split. discriminate. Qed.
+
+(* ================= tainted objects (ResolverOptions.ValidateRequiredExternalFields; C07/ModelTaint.v) =================
+
+   "Errors with partial data": a batch entity fetch is answered, but some entities come back with a nullable
+   @requires input set to null and an `errors` entry whose path names the entity's position in `_entities` -- a position
+   among the de-duplicated, non-skipped representations of the REQUEST, not among the items of the fetch.
+
+   [load_t St exchange vre coords t x]   the loader with the taint bookkeeping: state (lstate, tainted locations);
+   [coords id]                           FetchInfo.FetchReasons of fetch id that are IsRequires and Nullable, as (type, field);
+   [tainted_indices vre cs f res]        getTaintedIndices on the response as mergeResult calls it;
+   [in_buckets bs b l]                   item l is a merge target of the unique representation b (batchStats);
+   [batch_merged f res n]                the response parsed and its `_entities` is a non-empty array of n entities;
+   [is_tainted T l]                      l or something below l is in T (taintedObjects.isTainted);
+   [apply_partial p r]                   response r with the fields [pf_nulls p] nulled and [pf_errors p] appended. *)
+
+(* with the option off, or without nullable @requires reasons, this loader is the loader of the theorems above,
+   for every exchange (subgraphs, faults, cache), tree and state *)
+Theorem c07_taint_off_same :
+  forall (St : Type) (exchange : St -> request -> response * St) (vre : bool) (coords : N -> list (bytes * bytes)),
+    vre = false \/ (forall id, coords id = []) ->
+    forall (t : ftree) (x : St),
+    load_t St exchange vre coords t x = ((fst (load St exchange t x), []), snd (load St exchange t x)).
+Proof. exact load_t_off. Qed.
+Print Assumptions c07_taint_off_same.
+
+(* taint_exact: which objects a batch entity fetch taints, for every item list (duplicates, null items, items that do not
+   render), every response and every state: an object is newly tainted iff the resolve did not abort, the response went
+   through the merge, and an error path names the position k of the request at which the object's own representation b was
+   sent -- the object is a merge target of b *)
+Theorem c07_taint_exact :
+  forall (vre : bool) (cs : list (bytes * bytes)) (f : fetch) (res : response) (items : list rpath) (data d' : json) (rq : request)
+         (bl : list (list rpath)) (s : lstate) (T : list rpath),
+    f_kind f = FBatch -> prepare f data items = PLoad d' rq (Some bl) ->
+    let st' := merge_result_t vre cs f res items (Some bl) (s, T) in
+    forall l, In l (snd st') <->
+      In l T \/ (ls_hard (fst st') = false /\ batch_merged f res (List.length (rq_reps rq)) /\
+                 exists k b, nth_error (rq_reps rq) k = Some b /\ In (N.of_nat k) (tainted_indices vre cs f res) /\
+                             in_buckets (snd (batch_prepare (f_rep f) items data [])) b l).
+Proof. exact taint_exact_thm. Qed.
+Print Assumptions c07_taint_exact.
+
+(* ... where the positions of the request are the buckets: the representations are pairwise distinct, bucket k holds exactly
+   the items that render representation k, every member is an item *)
+Theorem c07_buckets_partition :
+  forall (f : fetch) (data : json) (items : list rpath) (d' : json) (rq : request) (bl : list (list rpath)),
+    f_kind f = FBatch -> prepare f data items = PLoad d' rq (Some bl) ->
+    let bs := snd (batch_prepare (f_rep f) items data []) in
+    NoDup (rq_reps rq) /\ List.length bl = List.length (rq_reps rq) /\
+    (forall b l, in_buckets bs b l -> In l items /\ In b (rq_reps rq)) /\
+    (forall k b targets, nth_error (rq_reps rq) k = Some b -> nth_error bl k = Some targets -> forall l, In l targets <-> in_buckets bs b l).
+Proof. exact buckets_partition_thm. Qed.
+Print Assumptions c07_buckets_partition.
+
+(* taints only grow along a run (any tree, exchange, option, state) *)
+Theorem c07_taints_grow :
+  forall (St : Type) (exchange : St -> request -> response * St) (vre : bool) (coords : N -> list (bytes * bytes))
+         (t : ftree) (s : lstate) (T : list rpath) (x : St) (l : rpath),
+    In l T -> In l (snd (fst (run_tree_t St exchange vre coords t ((s, T), x)))).
+Proof. exact run_tree_t_grow. Qed.
+Print Assumptions c07_taints_grow.
+
+(* tainted_not_sent: in every state of every run, the items a fetch works on are the selected items that are not tainted;
+   an object in T, and every object above it, is not among them; the members of a batch's buckets are such items; and the
+   request the step sends (if any) is prepared from these items only.  With c07_taints_grow: once tainted, an object is in no
+   later request. *)
+Theorem c07_tainted_not_sent :
+  forall (St : Type) (exchange : St -> request -> response * St) (vre : bool) (coords : N -> list (bytes * bytes))
+         (f : fetch) (s : lstate) (T : list rpath),
+    let items := filter_tainted T (select_items (ls_data s) (f_path f)) in
+    (forall l, In l items -> In l (select_items (ls_data s) (f_path f)) /\ is_tainted T l = false) /\
+    (forall l t, In t T -> rpath_prefix l t = true -> ~ In l items) /\
+    (forall b l, in_buckets (snd (batch_prepare (f_rep f) items (ls_data s) [])) b l -> In l items) /\
+    (forall x rq, In rq (ls_reqs (fst (fst (run_fetch_t St exchange vre coords f ((s, T), x))))) -> ~ In rq (ls_reqs s) ->
+       exists d' batch, prepare f (ls_data s) items = PLoad d' rq batch).
+Proof. exact tainted_not_sent_thm. Qed.
+Print Assumptions c07_tainted_not_sent.
+
+(* untainted_same: a partial-data fault changes nothing at the objects it does not name.  For the items selectItemsForPath
+   yields (any data, path, taint set) and ANY answered response r0: merge r0, and merge r0 with the fault applied
+   (fields nulled at positions [pf_nulls p], errors appended); if neither merge aborts the resolve, every merge target of
+   a position the fault does not null holds the same value after both -- so a dependant renders the same representation for it
+   as without the fault (a healthy duplicate, a neighbour of a skipped item are untouched) *)
+Theorem c07_untainted_same :
+  forall (f : fetch) (data : json) (path : list pathelem) (T : list rpath) (d' : json) (rq : request) (bl : list (list rpath))
+         (r0 : response) (p : pfault) (s : lstate) (resp0 : json) (ents0 : list json),
+    f_kind f = FBatch -> f_datapath f = [PName k_data; PName k_entities] ->
+    prepare f data (filter_tainted T (select_items data path)) = PLoad d' rq (Some bl) ->
+    rs_err r0 = false -> rs_body r0 = BJson resp0 -> valid_numbers resp0 = true ->
+    get_loc [PName k_data; PName k_entities] resp0 = Some (JArr ents0) -> List.length bl = List.length ents0 ->
+    (forall respP, rs_body (apply_partial p r0) = BJson respP -> valid_numbers respP = true) ->
+    let items := filter_tainted T (select_items data path) in
+    let sP := merge_result f (apply_partial p r0) items (Some bl) s in
+    let s0 := merge_result f r0 items (Some bl) s in
+    ls_hard sP = false -> ls_hard s0 = false ->
+    forall k targets l, nth_error bl k = Some targets -> In l targets ->
+      (forall fld, ~ In (N.of_nat k, fld) (pf_nulls p)) ->
+      get_loc l (ls_data sP) = get_loc l (ls_data s0).
+Proof. exact untainted_same_items. Qed.
+Print Assumptions c07_untainted_same.
+
+(* non-vacuity (ProofsTaintExamples, plan 6: l = [null, A1, A1, A2]; f1's request is [A1, A2]; position 1 = A2 = list position 3):
+   the hypotheses of c07_taint_exact / c07_untainted_same hold, the tainted index is 1, the tainted object is l[3] and
+   l[1], l[2] -- the duplicates before the failing entity -- are merged as without the fault *)
+Example c07_taint_hypotheses_satisfiable :
+  let P := p6_partial proper_path in
+  let s1 := fst (run_t p6_answer p6_root_answer p6_kind true p6_coords no_faults P (FTSingle p6_f0)) in
+  let items := filter_tainted [] (select_items (ls_data s1) (f_path p6_f1)) in
+  items = [l_at 0; l_at 1; l_at 2; l_at 3] /\
+  (exists d' rq, prepare p6_f1 (ls_data s1) items = PLoad d' rq (Some [[l_at 1; l_at 2]; [l_at 3]]) /\ List.length (rq_reps rq) = 2%nat) /\
+  (let r0 := fst (partial_exchange p6_answer p6_root_answer p6_kind no_faults no_partials tt
+                    (mk_request p6_f1 (List.map fst (snd (batch_prepare (f_rep p6_f1) items (ls_data s1) []))))) in
+   tainted_indices true (p6_coords 1) p6_f1 (apply_partial {| pf_nulls := [(1, bs "zip")]; pf_errors := [err_at proper_path] |} r0) = [1] /\
+   ls_hard (merge_result p6_f1 (apply_partial {| pf_nulls := [(1, bs "zip")]; pf_errors := [err_at proper_path] |} r0) items (Some [[l_at 1; l_at 2]; [l_at 3]]) s1) = false /\
+   ls_hard (merge_result p6_f1 r0 items (Some [[l_at 1; l_at 2]; [l_at 3]]) s1) = false) /\
+  snd (p6_run true P) = [l_at 3].
+Proof. vm_compute. repeat split. eexists. eexists. split; reflexivity. Qed.
